@@ -13,6 +13,8 @@ operations:
   ("on_thread_window", ACQ, REL, INSIDE, THREAD) every INSIDE event of THREAD lies inside an
                             ACQ..REL window of the same thread
   ("probe", NAME)           a heavier single-purpose scenario of replay-bin (`--probe NAME`) must report ok=true
+  ("sorted_segment", TY, A, B) the solver's counterexample of the sort-key obligation: a segment of an index sorted
+                            by a TY fast field holding A and B must come out in ascending order
   ("json_range", LIT_TY, COL_TY, SIDE, KIND, LIT, VAL) the solver's counterexample of a bound
                             transformation obligation, run as a real range query on a real index
 Events are written "op" or "op:path-suffix".
@@ -132,6 +134,10 @@ def confirm(rec, native, scratch, verif_root):
                 elif p[0] == "probe":
                     pe = run(exe, extra=["--probe", p[1]], timeout=600)
                     line = next((e for e in (pe or []) if e.get("api") == p[1]), None)
+                    r = {"violated": (line is not None and not line["ok"]), "api": line}
+                elif p[0] == "sorted_segment":
+                    pe = run(exe, extra=["--sorted-segment"] + [str(x) for x in p[1:]])
+                    line = next((e for e in (pe or []) if e.get("api") == "sorted_segment"), None)
                     r = {"violated": (line is not None and not line["ok"]), "api": line}
                 elif p[0] == "json_range":
                     pe = run(exe, extra=["--json-range"] + [str(x) for x in p[1:]])
